@@ -104,6 +104,12 @@ def run_case(case, mir, schema, native=None, quick=True):
                 h.real(nme)
         S = dict(h.syms)
         S.update(b.fixed)
+        # the float model excludes non-finite inputs: every real input lies strictly between -INF and +INF
+        if h.eng.mode == "real":
+            for nme, v in h.syms.items():
+                if v.sort().kind() == z3.Z3_REAL_SORT:
+                    h.eng.solver.add(z3.And(v < h.eng.INF, v > -h.eng.INF))
+                    h.assumptions.append((None, z3.And(v < h.eng.INF, v > -h.eng.INF)))
         assumptions = case.assume(S) if case.assume else []
         assumptions = [(t, c) for (t, c) in assumptions if not (isinstance(c, bool) and c)]
         if any(isinstance(c, bool) and not c for (_, c) in assumptions):
@@ -115,7 +121,7 @@ def run_case(case, mir, schema, native=None, quick=True):
             return res
         for (text, c) in assumptions:
             h.assume(c, text)
-        res["assumptions"] = [t for (t, _) in assumptions]
+        res["assumptions"] = [t for (t, _) in assumptions] + ["every real-valued input is finite (strictly between -INF and +INF)"]
         p = h.put(st, recv_val) if recv_val is not None else None
         pre = VAcc(h, recv_val) if recv_val is not None else None
         # run the call sequence; an Err/panic ends that path
